@@ -28,7 +28,7 @@ type Explorer struct {
 	Capped      bool
 	Violations  []Found
 	// distinct observations (caller fills through Observe)
-	Outcomes map[string]int64
+	Outcomes  map[string]int64
 	MaxPoints int
 }
 
